@@ -11,8 +11,8 @@ and model-vs-implementation (the tie).
 
 corpus/C11 runs first on every run: `{"case": ...}` files are cases (optionally with `"gc"`, a forced
 collection schedule), `{"program": "x.lay", "good_stdout": ...}` files are whole programs with their expected
-output — among them the witnesses of the repaired findings D40, D42, D43, D45 and of the iterator-parameter
-repair (546c031), kept as regression inputs.  Known findings still open: D41, D44."""
+output — among them the witnesses of the repaired findings D40, D41, D42, D43, D44, D45 and of the
+iterator-parameter repair (546c031), kept as regression inputs.  No finding of C11 is open."""
 import itertools
 import json
 import os
@@ -466,8 +466,7 @@ def num_arg(t):
 
 def spec_iter(ops):
     """Expected (result, log, nb) per op from Python's lazy iterators; None where the mathematical reading
-    says nothing (current before/after the stream, an iterator after an error, after `len`) or where a known
-    finding's signature is hit (then the rest of the case is unjudged)."""
+    says nothing (current before/after the stream, an iterator after an error, after `len`)."""
     world = {"log": [], "nb": [0]}
     cbs = spec_callbacks(world)
     V = {}
@@ -479,7 +478,6 @@ def spec_iter(ops):
             self.it = it
             self.cur = None
             self.curok = False
-            self.fresh = True     # nothing has been pulled yet
             self.poison = False   # a callback raised while it was driven, or `len` ran
             self.ended = False    # it has reported its end: a finite stream says nothing about what comes after
             self.effect = False   # a callback stage is part of it
@@ -561,9 +559,7 @@ def spec_iter(ops):
                         raise SpecErr("RuntimeError")
                     if n[0] == "bad" or n[1] < 0:
                         raise SpecErr("ValueError")
-                    if (v.effect and n[1] > 0) or v.poison or v.ended:
-                        dead = True     # known finding D44: skip consumes eagerly, at construction
-                        judged = False
+                    # lazy like every adaptor: nothing is pulled (no callback below runs) before the result is advanced
                     v.it = itertools.islice(v.it, min(n[1], 10 ** 9), None)
                 elif a in ("zip", "chain"):
                     if any(j.startswith("v:") for j in w[3:]):
@@ -576,7 +572,6 @@ def spec_iter(ops):
                     allv = [v] + others
                     its = [x.it for x in allv]
                     v.it = zip(*its) if a == "zip" else itertools.chain(*its)
-                    v.fresh = all(x.fresh for x in allv)
                     v.poison = any(x.poison for x in allv)
                     v.ended = any(x.ended for x in allv)
                     v.effect = any(x.effect for x in allv)
@@ -586,7 +581,6 @@ def spec_iter(ops):
                 raise SpecErr("RuntimeError")
             elif w[0] == "next":
                 v = V[w[1]]
-                v.fresh = False
                 if v.poison or v.ended:
                     judged = False
                     dead = True     # the world after driving an iterator in an unspecified state is unspecified
@@ -609,8 +603,6 @@ def spec_iter(ops):
                 if v.poison or v.ended:
                     judged = False
                     dead = True
-                wasfresh = v.fresh
-                v.fresh = False
                 v.curok = False
                 if t in ("list", "intolist", "intotuple"):
                     xs = list(drain(v))
@@ -641,9 +633,7 @@ def spec_iter(ops):
                         last = x
                     res = show_top(last)
                 elif t == "len":
-                    if not wasfresh:
-                        dead = True     # known finding D41: len answers the size hint of the *source*
-                        judged = False
+                    # the number of elements still to come, also on an iterator that was already advanced
                     v.poison = True     # whether `len` consumes is not part of the mathematical reading
                     if v.effect:
                         # the *number* is specified (callbacks decide it under filter); whether `len` runs the
@@ -884,6 +874,30 @@ def gen_iter_case(rng, maxops):
             continue
         k = rng.choice(list(live))
         ty = live[k]
+        if rng.random() < 0.10:
+            # the two repaired findings, aimed at: `len` of an iterator that was already advanced (D41), and `skip` over
+            # a stage with an effectful callback, the log being printed before the result is advanced (D44)
+            if rng.random() < 0.5:
+                ops.extend(["next %d" % k] * rng.choice([1, 1, 2, 3]))
+                if rng.random() < 0.4:
+                    ops.append("ad %d %s" % (k, rng.choice(["take 1", "take 2", "take 5", "skip 1", "skip 2", "map id"])))
+                    if rng.random() < 0.3:
+                        ops.append("next %d" % k)
+                ops.append("t %d len" % k)
+                if rng.random() < 0.6:
+                    ops.append("t %d %s" % (k, rng.choice(["list", "intolist", "len", "last"])))
+                if rng.random() < 0.5:
+                    del live[k]
+            else:
+                if rng.random() < 0.3:
+                    ops.append("next %d" % k)
+                ops.append("ad %d %s" % (k, rng.choice(["map logid", "map raise2", "map nbpush", "filter logtrue", "filter raise2t",
+                                                         "filter logfalse"] + (["map loginc", "filter loggt1"] if ty == "num" else []))))
+                ops.append("ad %d skip %s" % (k, rng.choice(["1", "1", "2", "3", "5"])))
+                ops.append(rng.choice(["cur %d", "next %d", "t %d first", "t %d list", "t %d len", "ad %d take 1"]) % k)
+                if rng.random() < 0.5:
+                    ops.append("t %d list" % k)
+            continue
         r = rng.random()
         if r < 0.10:
             new_source()
@@ -1011,6 +1025,34 @@ def exhaustive_cases(full):
             cases.append({"kind": "iter", "ops": ["new 0 list " + vs, "ad 0 take " + a, "t 0 list"]})
             cases.append({"kind": "iter", "ops": ["new 0 list " + vs, "ad 0 skip " + a, "t 0 list"]})
             cases.append({"kind": "iter", "ops": ["new 0 list " + vs, "ad 0 map loginc", "ad 0 take " + a, "t 0 list"]})
+    # `len` is what is left (D41): every source, bare and under every adaptor, advanced 0-4 times before / after the
+    # adaptor was put on (4 = past the end), then `len` and what a traversal still yields
+    sources = ["list 1,2,3", "tuple 1,2,3", "times 3", "chars " + tok_str("abc"), "until 0 3", "list -",
+               "split %s %s" % (tok_str("a,b,c"), tok_str(","))]
+    wraps = [[], ["ad 0 take 2"], ["ad 0 take 5"], ["ad 0 skip 1"], ["ad 0 skip 5"], ["ad 0 map id"], ["ad 0 filter ne2"],
+             ["ad 0 skip 1", "ad 0 take 1"], ["ad 0 take 2", "ad 0 skip 1"],
+             ["new 1 list 7,8", "ad 0 chain 1"], ["new 1 times 2", "ad 0 zip 1"], ["new 1 list 7,8", "new 2 times 2", "ad 0 chain 1 2"]]
+    for src in sources:
+        for wrap in wraps:
+            for j in (0, 1, 2, 4):
+                cases.append({"kind": "iter", "ops": ["new 0 " + src] + wrap + ["next 0"] * j + ["t 0 len", "t 0 list"]})
+                if wrap and j:
+                    cases.append({"kind": "iter", "ops": ["new 0 " + src] + ["next 0"] * j + wrap + ["t 0 len", "t 0 list"]})
+        # the iterator is the second member of a chain / zip
+        for j in (1, 2):
+            for which in ("chain", "zip"):
+                cases.append({"kind": "iter", "ops": ["new 0 " + src, "new 1 list 7,8"] + ["next 0"] * j +
+                              ["ad 1 %s 0" % which, "next 1", "t 1 len", "t 1 list"]})
+    # `skip` is lazy (D44): a stage with an effectful callback, `skip n` on it, and the log printed before anything is
+    # pulled; then the result is advanced in different ways
+    for cb in ("map logid", "map loginc", "filter loggt1", "filter logtrue", "filter logfalse", "map raise2", "filter raise2t",
+               "map nbpush"):
+        for n in ("0", "1", "2", "3", "5"):
+            for tail in (["t 0 list"], ["cur 0", "next 0", "cur 0", "t 0 list"], ["t 0 len"], ["ad 0 take 1", "t 0 list"],
+                         ["t 0 first", "t 0 list"], ["ad 0 skip 1", "next 0", "t 0 list"]):
+                cases.append({"kind": "iter", "ops": ["new 0 list 1,2,3,4", "ad 0 " + cb, "ad 0 skip " + n] + tail})
+            cases.append({"kind": "iter", "ops": ["new 0 list 1,2,3,4", "ad 0 " + cb, "next 0", "ad 0 skip " + n, "cur 0", "next 0",
+                                                  "cur 0", "t 0 list"]})
     for a in [x for x in ALL_NUM_ARGS if x not in (str(P53), str(P63), str(P64), "7", "6")]:
         good = a.isdigit()
         cases.append({"kind": "iter", "ops": ["new 0 times " + a] + (["t 0 list"] if good else [])})
@@ -1266,6 +1308,149 @@ def search(ctx, scale=10):
 
 
 # ---------------------------------------------------------------------------------------------
+# hash-map iterators: the order of their elements depends on addresses, so they are not part of the case language
+# (and of the Lean model); how *many* elements are left does not, and `len` / the size hint must say exactly that
+# (finding D41 covered `MapIterator::size_hint` too).  One case = a map with `n` entries, its iterator, and
+# operations on it; the Spec is a counter.
+
+MAPITER_KEYS = ["1", "2", "3", "\"a\"", "\"b\"", "true", "nil", "\"é\"", "7", "-1"]
+
+
+def gen_mapiter_case(rng):
+    n = rng.choice([0, 1, 2, 3, 3, 4, 5, 6, 8])
+    ops = []
+    for _ in range(rng.randint(1, 10)):
+        r = rng.random()
+        if r < 0.35:
+            ops.append("next")
+        elif r < 0.65:
+            ops.append("len")
+        elif r < 0.73:
+            ops.append("take %d" % rng.choice([0, 1, 2, 3, 9]))
+        elif r < 0.81:
+            ops.append("skip %d" % rng.choice([0, 1, 2, 3, 9]))
+        elif r < 0.87:
+            ops.append("chain %d" % rng.choice([0, 1, 2]))
+        elif r < 0.93:
+            ops.append("zip %d" % rng.choice([0, 1, 2, 5, 9]))
+        else:
+            ops.append("listlen")
+    ops.append("len")
+    return {"entries": n, "ops": ops}
+
+
+def render_mapiter(case):
+    out = ["let m = {%s};\nlet it = m.iter();\n" % ", ".join("%s: %d" % (k, i) for i, k in enumerate(MAPITER_KEYS[:case["entries"]]))]
+    for op in case["ops"]:
+        w = op.split()
+        if w[0] == "next":
+            out.append("print(it.next());\n")
+        elif w[0] == "len":
+            out.append("print(it.len());\n")
+        elif w[0] == "listlen":
+            out.append("print(it.list().len());\n")
+        elif w[0] in ("take", "skip"):
+            out.append("it = it.%s(%s);\n" % (w[0], w[1]))
+        elif w[0] == "chain":
+            out.append("it = it.chain([%s].iter());\n" % ", ".join("0" for _ in range(int(w[1]))))
+        elif w[0] == "zip":
+            out.append("it = it.zip(%s.times());\n" % w[1])
+    return "".join(out)
+
+
+def spec_mapiter(case):
+    """The expected output: a stream of `left` elements, whatever they are."""
+    left = case["entries"]
+    out = []
+    for op in case["ops"]:
+        w = op.split()
+        if w[0] == "next":
+            out.append("true" if left > 0 else "false")
+            left = max(0, left - 1)
+        elif w[0] == "len":
+            out.append(str(left))
+        elif w[0] == "listlen":
+            out.append(str(left))
+            left = 0
+        elif w[0] == "take":
+            left = min(left, int(w[1]))
+        elif w[0] == "skip":
+            left = max(0, left - int(w[1]))
+        elif w[0] == "chain":
+            left += int(w[1])
+        elif w[0] == "zip":
+            left = min(left, int(w[1]))
+    return "".join(x + "\n" for x in out)
+
+
+def run_mapiter(cases):
+    d = tempfile.mkdtemp(prefix="c11m_", dir="/tmp")
+    try:
+        reqs = []
+        for i, c in enumerate(cases):
+            p = os.path.join(d, "m%06d.lay" % i)
+            with open(p, "w") as f:
+                f.write(render_mapiter(c))
+            reqs.append(p)
+        res = common.run_batch(reqs, timeout=600)
+        return [((r.get("status", "?"), r.get("stdout", "")) if r else ("CRASH:missing", "")) for r in res]
+    finally:
+        shutil.rmtree(d, ignore_errors=True)
+
+
+def mapiter_fails(case):
+    st, so = run_mapiter([case])[0]
+    return not (st == "Ok:0" and so == spec_mapiter(case))
+
+
+def check_mapiter(ctx, rng, n):
+    fixed = [{"entries": e, "ops": ["next"] * j + wrap + ["len", "listlen", "len"]}
+             for e in (0, 1, 3) for j in (0, 1, 2, 4)
+             for wrap in ([], ["take 2"], ["skip 1"], ["skip 1", "next"], ["chain 2"], ["zip 2"], ["take 2", "next"])]
+    cases = fixed + [gen_mapiter_case(rng) for _ in range(n)]
+    bad = None
+    nlen = 0
+    for c, (st, so) in zip(cases, run_mapiter(cases)):
+        ctx.count_case("mapiter %d %s" % (c["entries"], ";".join(c["ops"])))
+        nlen += sum(1 for o in c["ops"] if o in ("len", "listlen"))
+        if bad is None and not (st == "Ok:0" and so == spec_mapiter(c)):
+            bad = c
+    ctx.cov["traces_validated_against_impl"] += len(cases)
+    ctx.stream_stat("map_iter_len", cases=len(cases), len_answers_judged=nlen, failing=0 if bad is None else 1)
+    if bad is None:
+        return True
+    # shrink: the shortest failing prefix, then single deletions, then fewer entries
+    cur = bad
+    for k in range(1, len(cur["ops"])):
+        cand = dict(cur, ops=cur["ops"][:k])
+        if mapiter_fails(cand):
+            cur = cand
+            break
+    changed = True
+    while changed:
+        changed = False
+        for i in range(len(cur["ops"])):
+            cand = dict(cur, ops=cur["ops"][:i] + cur["ops"][i + 1:])
+            if cand["ops"] and mapiter_fails(cand):
+                cur, changed = cand, True
+                break
+        if not changed and cur["entries"] > 0:
+            cand = dict(cur, entries=cur["entries"] - 1)
+            if mapiter_fails(cand):
+                cur, changed = cand, True
+    st, so = run_mapiter([cur])[0]
+    ctx.cov["impl_vs_spec_failures"] += 1
+    ctx.violation("map_iter_len_spec", {
+        "engine": "coll", "kind": "implementation-vs-spec", "seed": ctx.seed, "mapiter_case": cur,
+        "what": "an iterator over a hash map with %d entries, after %s: the Spec (a counter of the elements that are left) "
+                "expects the output %r, the implementation ended with %s and printed %r" % (
+                    cur["entries"], "; ".join(cur["ops"]), spec_mapiter(cur), st, so),
+        "program": render_mapiter(cur), "good_stdout": spec_mapiter(cur), "impl_status": st, "impl_stdout": so,
+        "replay": "./check C11 --replay <this file>"})
+    return False
+
+
+# ---------------------------------------------------------------------------------------------
 # known findings
 
 def replay_findings(ctx):
@@ -1357,7 +1542,9 @@ def run(ctx):
                        "exhaustively for lengths 0-4 on get/set/insert/remove/slice/take/skip/times/until; growth of "
                        "pre-sized lists from capacity 0-3; every sort comparator (consistent, fractional, non-number, NaN, "
                        "raising) on lengths 0-4; every kind of non-iterator argument to zip/chain/List.collect/"
-                       "Tuple.collect; multi-byte strings; callbacks that log, raise, or grow a neighbouring list; "
+                       "Tuple.collect; multi-byte strings; callbacks that log, raise, or grow a neighbouring list; `len` of every "
+                       "source bare and under every adaptor after 0-4 `next`s; `skip` over every effectful callback stage with "
+                       "the log printed before the result is advanced; hash-map iterators by the number of elements left; "
                        "operations run in a lambda under a try or (30%) inline in the try of the driving frame; "
                        "non-trivial = an error was raised, or an iterator program, or more than two operations; "
                        "distinct by the case text")
@@ -1366,6 +1553,9 @@ def run(ctx):
         what, detail = ctx.broken
         # the regression programs first: the shortest concrete input when a repaired defect is back
         if not check_programs(ctx, programs):
+            replay_findings(ctx)
+            return      # one root cause, one VIOLATION line
+        if not check_mapiter(ctx, random.Random(ctx.seed * 7907 + 5), ctx.n(600, 3000)):
             replay_findings(ctx)
             return      # one root cause, one VIOLATION line
         found = search(ctx, scale=ctx.n(4, 10))
@@ -1390,6 +1580,8 @@ def run(ctx):
     streams.append(("random_gc", gc_cases, "coin:1/3:%d" % ctx.seed))
     streams.append(("random_gc_every", gc_cases[::3], "every:1"))
     for label, cases, gc in streams:
+        if label == "random" and not check_mapiter(ctx, rng, ctx.n(300, 3000)):
+            return
         ok, fs, ft = check_cases(ctx, label, cases, gc=gc)
         if label == "random" and cases:
             for kind in ("list", "iter", "str"):
@@ -1407,6 +1599,7 @@ def run(ctx):
         "each operation runs under a module-level try, either in a zero-argument lambda called from it or (30% of the random cases) inline, so that the handler is in the frame that drives the native; nested handlers and handlers inside callbacks are C04's business",
         "sort comparators are pure functions of their two arguments whose failures all have one class per case (which failing comparison comes first is the sorting algorithm's choice)",
         "the Spec of iterator programs is the Python-generator monitor spec_iter (Python's own lazy map/filter/islice/zip/chain)",
+        "iterators over hash maps are outside the case language and the Lean model (their order depends on addresses); only how many elements they have left (len, next, list().len() alone and under take/skip/chain/zip) is judged, by a counter (stream map_iter_len)",
     ]
 
 
@@ -1420,6 +1613,13 @@ def replay(path):
         print("expected: Ok:0", repr(r["good_stdout"]))
         print("impl    :", st, repr(so))
         return 1 if bad else 0
+    if "mapiter_case" in r:
+        case = r["mapiter_case"]
+        st, so = run_mapiter([case])[0]
+        print("map with", case["entries"], "entries, its iterator:", "; ".join(case["ops"]))
+        print("expected: Ok:0", repr(spec_mapiter(case)))
+        print("impl    :", st, repr(so))
+        return 1 if not (st == "Ok:0" and so == spec_mapiter(case)) else 0
     case = r["case"]
     common.lake_build(["drv_coll"])
     mo, sf, tf = rejudge(case)
